@@ -39,7 +39,16 @@ Definition covers_pos (x : Z) (e : entry) : bool :=
 Definition is_ok (e : entry) : bool := match e with (_, _, Ok _) => true | _ => false end.
 Definition has_size (al : Z) (e : entry) : bool := match e with (_, s, Ok _) => s =? al | _ => false end.
 
+(* the distinct ranges some add was answered with; every byte-owning region is one of them, so their total length bounds the
+   payload from above *)
+Definition range_eq_dec (a b : Z * Z) : {a = b} + {a <> b}.
+Proof. decide equality; apply Z.eq_dec. Defined.
+Definition ok_ranges (tr : list entry) : list (Z * Z) :=
+  flat_map (fun e => match e with (_, s, Ok o) => [(o, s)] | _ => [] end) tr.
+Definition total_len (l : list (Z * Z)) : Z := fold_right (fun r a => snd r + a) 0 l.
+
 Definition judge (tr : list entry) (img : list Z) (sz al mn : Z) : bool :=
+  (sz <=? 2 * total_len (nodup range_eq_dec (ok_ranges tr))) &&
   forallb (entry_ok img sz al) tr &&
   forallb (fun a => forallb (dedup_ok a) tr) tr &&
   (Z.of_nat (length img) =? sz) &&
